@@ -6,8 +6,8 @@ Model of refurb's lightweight type resolver (refurb/checks/common.py:540-783):
   `is_mapping_type`, `is_sized_type`, and FURB123's decision (`no_unnecessary_cast.check`),
 
 over a model of the part of mypy's `Type` / `SymbolNode` ADTs they look at.  The code that exists is modelled,
-including its fall-through to `None`, the missing alias expansion in `extract_typeinfo`, the walrus case that
-returns the TARGET's type, and the `TupleType`/`TypeInfo` cases of `_is_same_type`.
+including its fall-through to `None`, the missing alias expansion in `extract_typeinfo`, the declaration-based typing of
+names (no flow sensitivity) and the conservative `IndexExpr` case (base must resolve to an `Instance`).
 
 `inferRef` / `Res` are NOT a model of refurb: they are a small reference for "what mypy infers" on the same
 expression fragment (flow-sensitive names, enum members, walrus = value), validated against mypy's own
@@ -69,6 +69,8 @@ structure ClassInfo where
   mro : List String
   /-- `TypeInfo.names` (the class's own symbol table; entries whose `.node` is None are left out) -/
   names : List (String × Sym)
+  /-- `TypeInfo.is_enum` -/
+  isEnum : Bool := false
   /-- names of the enum members, if the class is an enum (used by the reference only, never by the resolver) -/
   enumMembers : List String := []
   /-- calling the class does not give a plain instance of it: `builtins.type` (mypy special-cases `type(x)`),
@@ -100,9 +102,14 @@ def Ctx.specialCtor (Γ : Ctx) (c : String) : Bool :=
   | some k => k.specialCtor
   | none => false
 
+def Ctx.isEnum (Γ : Ctx) (c : String) : Bool :=
+  match Γ.cls c with
+  | some k => k.isEnum
+  | none => false
+
 def Ctx.isEnumMember (Γ : Ctx) (c : String) (n : String) : Bool :=
   match Γ.cls c with
-  | some k => k.enumMembers.contains n
+  | some k => k.isEnum && k.enumMembers.contains n
   | none => false
 
 /-- the expression forms `get_mypy_type` distinguishes.  Children that it never looks at (arguments, display
@@ -120,8 +127,9 @@ inductive Expr where
   | unary (op : String) (methodType : Option Ty)
   | op (op : String) (methodType : Option Ty)
   /-- `baseUnion`: mypy's type of the indexed value is a union (mypy then checks every member in turn and
-      `method_type` keeps whatever the LAST member selected); a fact the resolver never reads -/
-  | index (methodType : Option Ty) (baseUnion : Bool)
+      `method_type` keeps whatever the LAST member selected); a fact the resolver never reads — it asks instead
+      whether the base resolves to an `Instance` -/
+  | index (base : Expr) (methodType : Option Ty) (baseUnion : Bool)
   | await (e : Expr)
   /-- a lambda whose body is exactly `return <e>` -/
   | lambda (body : Expr)
@@ -148,7 +156,7 @@ def isSameName (tbl : SimpleTypes) (c : String) (e : Expected) : Bool :=
 /-- `_is_same_type(ty, expected)` for a `Type` -/
 def isSameTy (tbl : SimpleTypes) : Ty → Expected → Bool
   | .alias t, e => isSameTy tbl t e
-  | .tuple _ _, e => e == .pyType "tuple"
+  | .tuple _ fb, e => e == .pyType "tuple" && fb == "builtins.tuple"
   | .any, e => e == .pyAny
   | .inst c _, e => isSameName tbl c e
   | _, _ => false
@@ -158,7 +166,7 @@ def isSame1 (tbl : SimpleTypes) : Option Val → Expected → Bool
   | none, .pyNone => true
   | none, _ => false
   | some (.ty t), e => isSameTy tbl t e
-  | some (.info c), e => isSameName tbl c e
+  | some (.info _), _ => false
   | some (.aliasNode _), _ => false
   | some (.file _), _ => false
 
@@ -185,11 +193,17 @@ def symVal : Sym → Option Val
 
 def isBoolLiteral (fullname : String) : Bool := fullname == "builtins.True" || fullname == "builtins.False"
 
+/-- a class attribute reached through the class object: a `Var` of an enum class has the enum's type -/
+def classAttr (Γ : Ctx) (c : String) (s : Sym) : Option Val :=
+  match s with
+  | .var t => if Γ.isEnum c then some (.ty (.inst c [])) else t.map .ty
+  | s => symVal s
+
 /-- the member lookup of the `MemberExpr` case, given what the receiver resolved to -/
 def memberOf (Γ : Ctx) (recv : Option Val) (n : String) : Option Val :=
   match recv with
   | some (.file m) => (Γ.moduleNames m).lookup n |>.bind symVal
-  | some (.info c) => (Γ.classNames c).lookup n |>.bind symVal
+  | some (.info c) => (Γ.classNames c).lookup n |>.bind (classAttr Γ c)
   | some (.ty (.inst c _)) => (Γ.lookupMro c n).bind symVal
   | _ => none
 
@@ -204,6 +218,19 @@ def callOf (callee : Option Val) : Option Val :=
 /-- the `method_type=CallableType(ret_type=ty)` pattern -/
 def methodRet : Option Ty → Option Val
   | some (.callable r) => some (.ty r)
+  | _ => none
+
+/-- the `IndexExpr` case: `method_type`'s return type, provided the base resolved to an `Instance` -/
+def Ty.expandAlias : Ty → Ty
+  | .alias t => t.expandAlias
+  | t => t
+
+def indexOf (base : Option Val) (mt : Option Ty) : Option Val :=
+  match base with
+  | some (.ty t) =>
+    match t.expandAlias with
+    | .inst _ _ => methodRet mt
+    | _ => none
   | _ => none
 
 /-- the `AwaitExpr` case, given what the operand resolved to -/
@@ -240,11 +267,11 @@ def getMypyType (Γ : Ctx) : Expr → Option Val
   | .call callee => callOf (getMypyType Γ callee)
   | .unary o mt => if o == "not" then (builtinType Γ "bool").map .ty else methodRet mt
   | .op _ mt => methodRet mt
-  | .index mt _ => methodRet mt
+  | .index base mt _ => indexOf (getMypyType Γ base) mt
   | .await e => awaitOf (getMypyType Γ e)
   | .lambda b => lambdaOf Γ (getMypyType Γ b)
   | .lambdaOther => none
-  | .walrus target _ => getMypyType Γ target
+  | .walrus _ value => getMypyType Γ value
   | .other => none
 
 /-! ### mypy_type_to_python_type, extract_typeinfo, is_subclass -/
@@ -256,7 +283,6 @@ def mypyTypeToPythonType (tbl : SimpleTypes) : Option Val → Option Expected
 /-- `extract_typeinfo`: the class whose MRO `is_subclass` walks.  No alias expansion; a `TupleType` (also a
     NamedTuple's) is answered with builtins' `tuple` (Python asserts that it exists: `none` here). -/
 def extractTypeinfo (Γ : Ctx) : Option Val → Option String
-  | some (.info c) => some c
   | some (.ty (.inst c _)) => some c
   | some (.ty (.tuple _ _)) =>
     (match builtinType Γ "tuple" with
@@ -264,9 +290,9 @@ def extractTypeinfo (Γ : Ctx) : Option Val → Option String
       | _ => none)
   | _ => none
 
-/-- `any(is_same_type(x, *expected) for x in mro)` -/
+/-- `any(_is_same_class(x, t) for x in mro for t in expected)` -/
 def mroMatches (tbl : SimpleTypes) (mro : List String) (expected : List Expected) : Bool :=
-  mro.any (fun c => isSameType tbl (some (.info c)) expected)
+  mro.any (fun c => expected.any (isSameName tbl c))
 
 def isSubclass (tbl : SimpleTypes) (Γ : Ctx) (v : Option Val) (expected : List Expected) : Bool :=
   match extractTypeinfo Γ v with
@@ -303,11 +329,17 @@ def Ty.cls : Ty → Option String
   | .alias t => t.cls
   | _ => Option.none
 
-/-- reference for a member access, given the receiver's reference result: an enum member reached through its
-    class has the enum's type, everything else is the declared type of the symbol -/
+/-- reference for a class attribute reached through the class object: an enum MEMBER has the enum's type,
+    everything else the declared type of the symbol -/
+def classAttrRef (Γ : Ctx) (c n : String) (s : Sym) : Option Val :=
+  match s with
+  | .var t => if Γ.isEnumMember c n then some (.ty (.inst c [])) else t.map .ty
+  | s => symVal s
+
+/-- reference for a member access, given the receiver's reference result -/
 def memberRef (Γ : Ctx) (recv : Option Val) (n : String) : Option Val :=
   match recv with
-  | some (.info c) => if Γ.isEnumMember c n then some (.ty (.inst c [])) else memberOf Γ recv n
+  | some (.info c) => (Γ.classNames c).lookup n |>.bind (classAttrRef Γ c n)
   | _ => memberOf Γ recv n
 
 /-- the callee denotes a class whose call is not a plain instance of it -/
@@ -346,29 +378,34 @@ def inferRef (Γ : Ctx) : Expr → Option Val
   | .call callee => callRef Γ (inferRef Γ callee)
   | .unary o mt => if o == "not" then (builtinType Γ "bool").map .ty else methodRet mt
   | .op _ mt => methodRet mt
-  | .index mt baseUnion => if baseUnion then none else methodRet mt
+  | .index _ mt baseUnion => if baseUnion then none else methodRet mt
   | .await e => awaitOf (inferRef Γ e)
   | .lambda b => lambdaOf Γ (inferRef Γ b)
   | .lambdaOther => none
   | .walrus _ value => inferRef Γ value
   | .other => none
 
-/-- the receiver of a member access denotes an enum class and the name is one of its members -/
-def enumAccess (Γ : Ctx) (recv : Option Val) (n : String) : Bool :=
+/-- the receiver of a member access denotes an enum class and the name is a `Var` of it that is NOT one of its
+    members (`_ignore_`, an annotated non-member, ...): the resolver still answers with the enum's type -/
+def enumNonMember (Γ : Ctx) (recv : Option Val) (n : String) : Bool :=
   match recv with
-  | some (.info c) => Γ.isEnumMember c n
+  | some (.info c) =>
+    Γ.isEnum c && !(Γ.isEnumMember c n) &&
+      (match (Γ.classNames c).lookup n with
+        | some (.var _) => true
+        | _ => false)
   | _ => false
 
 /-- the guard under which the resolver and the reference coincide (Bool version for the driver; the theorems
-    use `Plain` in Props/C05.lean and prove the two equivalent up to `==` on results) -/
+    use `Plain` in Props/C05.lean) -/
 def plainB (Γ : Ctx) : Expr → Bool
   | .name _ _ narrowed => narrowed.isNone
-  | .member e n narrowed => narrowed.isNone && plainB Γ e && !(enumAccess Γ (getMypyType Γ e) n)
+  | .member e n narrowed => narrowed.isNone && plainB Γ e && !(enumNonMember Γ (getMypyType Γ e) n)
   | .call callee => plainB Γ callee && !(specialCall Γ (getMypyType Γ callee))
-  | .index _ baseUnion => !baseUnion
+  | .index base _ baseUnion => plainB Γ base && !baseUnion
   | .await e => plainB Γ e
   | .lambda b => plainB Γ b
-  | .walrus target value => plainB Γ target && plainB Γ value && (getMypyType Γ target == getMypyType Γ value)
+  | .walrus _ value => plainB Γ value
   | _ => true
 
 end RefurbVerif.Types
